@@ -106,6 +106,17 @@ macro_rules! tables {
             pub fn u<const N: usize, Z: ZNum>() -> Vec<Op<$BUint<N>, Z>> {
                 model!($BUint<N>)
             }
+            /// the Roots operations only (wide-root exploration)
+            pub fn u_roots<const N: usize, Z: ZNum>() -> Vec<Op<$BUint<N>, Z>> {
+                let mut t: Vec<Op<$BUint<N>, Z>> = model!($BUint<N>);
+                t.retain(|o| o.name.starts_with("Roots::"));
+                t
+            }
+            pub fn i_roots<const N: usize, Z: ZNum>() -> Vec<Op<$BInt<N>, Z>> {
+                let mut t: Vec<Op<$BInt<N>, Z>> = model!($BInt<N>);
+                t.retain(|o| o.name.starts_with("Roots::"));
+                t
+            }
             pub fn u_fwd<const N: usize, Z: ZNum>() -> Vec<Op<$BUint<N>, Z>> {
                 fwd!($BUint<N>)
             }
